@@ -86,6 +86,10 @@ def _code_nb(outs, source='x = 1\n', minor=2):
             'cells': [{'cell_type': 'code', 'execution_count': None, 'metadata': {}, 'source': source, 'outputs': outs}]}
 
 
+def _stream(t):
+    return {'output_type': 'stream', 'name': 'stdout', 'text': t}
+
+
 def _disp(a):
     return {'output_type': 'display_data', 'data': {'text/plain': 'x'}, 'metadata': {'a': a}}
 
@@ -96,6 +100,8 @@ def corpus_triples():
         {'b': _md_nb({}), 'l': _md_nb({'test.png': {'image/png': 'AAAA'}}), 'r': _md_nb({'test.png': {'image/png': 'BBBB'}}), 'src': 'corpus:attachment-add-add'},
         {'b': _md_nb({'test.png': {'image/png': 'CCCC'}}), 'l': _md_nb({'test.png': {'image/png': 'AAAA'}}), 'r': _md_nb({'test.png': {'image/png': 'BBBB'}}), 'src': 'corpus:attachment-change-change'},
         {'b': _code_nb([_disp(1)]), 'l': _code_nb([_disp(2), {'output_type': 'stream', 'name': 'stdout', 'text': 'hi\n'}]), 'r': _code_nb([_disp(3)]), 'src': 'corpus:output-metadata+append'},
+        {'b': _code_nb([_stream('a\n')]), 'l': _code_nb([_stream('a\n'), _stream('local\n')]),
+         'r': _code_nb([_stream('a\n'), {'output_type': 'display_data', 'data': {'text/plain': 'R'}, 'metadata': {}}]), 'src': 'corpus:outputs-both-append'},
         {'b': _code_nb([], 'a\nb\nc\n'), 'l': _code_nb([], 'b\nc\n'), 'r': _code_nb([], 'a\nb\n'), 'src': 'corpus:source-both-delete'},
         {'b': _code_nb([], 'a\n'), 'l': _code_nb([], ''), 'r': _code_nb([], 'a\nb\n'), 'src': 'corpus:source-empty-vs-append'},
     ]
@@ -198,6 +204,9 @@ def refine_signature(sig, t, detail):
         return 'collected-diffs-not-wrapped-to-level:clear-all'
     if sig == 'merge-raises:TypeError@nbdime/merging/strategies.py:collect_diffs' and msg == "'NoneType' object is not iterable":
         return 'clear-all-collects-none-diff'
+    if sig == 'merge-raises:IndexError@nbdime/merging/strategies.py:resolve_strategy_inline_outputs' and msg == 'list index out of range' \
+            and _both_append_outputs(t):
+        return 'inline-outputs-insert-at-end-index-error'
     if sig == 'merge-raises:ValueError@nbdime/merging/strategies.py:resolve_strategy_inline_recurse':
         m = re.match(r"^Conflict on unrecognized key: '(.*)'$", msg)
         if m and m.group(1) == 'attachments' and _both_insert_cells_with_attachments(t):
@@ -214,10 +223,59 @@ def _cells(nb): return nb.get('cells', [])
 
 
 def _both_insert_cells_with_attachments(t):
-    base_att = [json.dumps(c.get('attachments'), sort_keys=True) for c in _cells(t['b'])]
-    def new_att(nb):
-        return [c for c in _cells(nb) if c.get('attachments') and json.dumps(c.get('attachments'), sort_keys=True) not in base_att]
-    return bool(new_att(t['l'])) and bool(new_att(t['r']))
+    """both sides hold a markdown/raw cell that is not a base cell, and the attachments of two such cells differ"""
+    base = [json.dumps(c, sort_keys=True) for c in _cells(t['b'])]
+    def new(nb):
+        return [c for c in _cells(nb) if c.get('cell_type') in ('markdown', 'raw') and json.dumps(c, sort_keys=True) not in base]
+    return any((cl.get('attachments') or cr.get('attachments')) and cl.get('attachments') != cr.get('attachments')
+               for cl in new(t['l']) for cr in new(t['r']))
+
+
+def _both_append_outputs(t):
+    """some base code cell whose outputs are a proper prefix-length shorter than those of a cell on both sides"""
+    for cb in _cells(t['b']):
+        if cb.get('cell_type') != 'code': continue
+        n = len(cb.get('outputs', []))
+        if any(c.get('cell_type') == 'code' and len(c.get('outputs', [])) > n for c in _cells(t['l'])) and \
+           any(c.get('cell_type') == 'code' and len(c.get('outputs', [])) > n for c in _cells(t['r'])):
+            return True
+    return False
+
+
+def crafted_triples(r, n, gennb):
+    """collisions the edit-script generator rarely produces: both sides append different outputs / add the same attachment
+    name / add the same metadata key / insert similar cells with different attachments, at a random cell of a generated base"""
+    out = []
+    for i in range(n):
+        b = gennb.gen_notebook(r, ncells=r.choice([1, 2, 3, 4]))
+        l = copy.deepcopy(b); rr = copy.deepcopy(b)
+        kind = ['append_outputs', 'add_attachment', 'add_metadata', 'similar_insert_attachments', 'append_outputs_one_edit'][i % 5]
+        code = [j for j, c in enumerate(b['cells']) if c['cell_type'] == 'code']
+        text = [j for j, c in enumerate(b['cells']) if c['cell_type'] in ('markdown', 'raw')]
+        if kind.startswith('append_outputs') and code:
+            j = r.choice(code)
+            l['cells'][j]['outputs'].append(gennb.gen_output(r, kind='stream'))
+            rr['cells'][j]['outputs'].append(gennb.gen_output(r))
+            if kind.endswith('one_edit') and b['cells'][j]['outputs']:
+                gennb.edit_output(r, l['cells'][j]['outputs'][0])
+        elif kind == 'add_attachment' and text:
+            j = r.choice(text); name = r.choice(['image.png', 'a b.jpg', 'x'])
+            for side in (l, rr):
+                att = dict(side['cells'][j].get('attachments') or {}); att[name] = gennb.gen_mimebundle(r, attachment=True)
+                side['cells'][j]['attachments'] = att
+        elif kind == 'add_metadata' and b['cells']:
+            j = r.randrange(len(b['cells'])); key = r.choice(['newkey', 'tags2', 'k'])
+            l['cells'][j]['metadata'][key] = r.choice([1, 'a', [1], {'x': 1}]); rr['cells'][j]['metadata'][key] = r.choice([2, 'b', [2], {'x': 2}])
+        else:
+            pos = r.randint(0, len(b['cells']))
+            c1 = {'cell_type': 'markdown', 'metadata': {}, 'source': gennb.gen_source(r, 'markdown', 3), 'attachments': {'p.png': gennb.gen_mimebundle(r, attachment=True)}}
+            if b['nbformat_minor'] >= 5: c1['id'] = gennb.gen_id(r, gennb.used_ids(b))
+            c2 = copy.deepcopy(c1); c2['attachments'] = {'p.png': gennb.gen_mimebundle(r, attachment=True)} if r.random() < 0.7 else {}
+            if r.random() < 0.3: del c2['attachments']
+            if 'id' in c2: c2['id'] = gennb.gen_id(r, gennb.used_ids(b) | {c1['id']})
+            l['cells'].insert(pos, c1); rr['cells'].insert(pos, c2)
+        out.append({'b': b, 'l': l, 'r': rr, 'src': 'crafted:' + kind})
+    return out
 
 
 def _delete_vs_multi_field_edit(t):
